@@ -42,12 +42,13 @@ def regenerate(ROOT, REPO):
     """floyd_warshall (template instantiated at T = double: three loop nests mutating T** D, edge vector, weight valarray)
     is regenerated from cola/libcola/shortest_paths.h by cpp2lean on every run and proved equal to
     Model/ShortestPaths.lean's floydWarshall, with all assertions / array bounds discharged (Props/C17Tie.lean); so are
-    dijkstra_init (= the model's adj lists) and the relax loop of dijkstra(s, vs, d) (a fragment; = foldl relaxEdgeH over adj)"""
+    dijkstra_init (= the model's adj lists) the relax loop of dijkstra(s, vs, d) (a fragment; = foldl relaxEdgeH over adj) and the WHOLE function
+    dijkstra(s, vs, d) (while loop on fuel, abstract heap; with the model heap = dijkstraHeap, so dijkstraHeap_correct is about it)"""
     import sys
     from pathlib import Path
     sys.path.insert(0, str(Path(ROOT) / "tools" / "cpp2lean"))
     import jobs
-    return jobs.regenerate(["shortest", "dijkstra_relax"], Path(ROOT), Path(REPO))
+    return jobs.regenerate(["shortest", "dijkstra_relax", "dijkstra"], Path(ROOT), Path(REPO))
 
 
 def plan(tier, seed, searching):
